@@ -158,6 +158,12 @@ let model (e : env) (fields : string array) : string =
       let t = ds (f 1) and p = ds (f 2) in
       let d = dedent t in
       es d ^ "\t" ^ es (dedent d) ^ "\t" ^ es (dedent (indent t p))
+  | "std" ->
+      let t = ds (f 1) in
+      String.concat "\t"
+        [ estrs (lines t); estrs (split_lf t); estrs (split_crlf t); estrs (split_terminator_lf t);
+          es (trim_end_sp t); es (trim t); es (trim_end t); dec_of_n (blen t);
+          (if ends_with t [lF] then "1" else "0"); (if ends_with t [cR; lF] then "1" else "0") ]
   | "ffx" | "ofx" -> "IMPL-ONLY"
   | op -> "UNKNOWN-OP " ^ op
 
